@@ -137,6 +137,15 @@ fn siblings(acc: &mut Acc, inst: i128, d: i128, offs: &[i32]) {
             if c != want {
                 acc.violation("NaiveDateTime::checked_add_days", format!("NaiveDateTime({}).checked_{}_days(Days::new({}))", show(inst), if neg { "sub" } else { "add" }, n), format!("{:?}", want), format!("{:?}", c));
             }
+            // the zone-aware forms at offset zero (wall clock = UTC, so the result is the exact instant or a refusal)
+            let u = chrono::Utc.from_utc_datetime(&s);
+            let wantu = want.map(|x| chrono::Utc.from_utc_datetime(&x));
+            acc.transitions += 1;
+            let cu = guard(|| if neg { u.checked_sub_days(Days::new(n)) } else { u.checked_add_days(Days::new(n)) });
+            if cu.as_ref().ok() != Some(&wantu) {
+                acc.violation("DateTime<Utc>::checked_add_days", format!("DateTime<Utc>({}Z).checked_{}_days(Days::new({}))", show(inst), if neg { "sub" } else { "add" }, n), format!("{:?}", wantu), format!("{:?}", cu));
+            }
+            sib(acc, "DateTime<Utc>:op-Days", guard(|| if neg { u - Days::new(n) } else { u + Days::new(n) }), wantu, || format!("DateTime<Utc>({}Z) {} Days::new({})", show(inst), &sign[..1], n));
         }
         // the date forms: whole days of the duration, time untouched
         let z = inst.div_euclid(DAY_NS);
